@@ -27,11 +27,12 @@ CONSTANTS = {
         # FooterTail::try_new: magic = slice[4..], length = u32 LE of slice[..4]
         ("FOOTER_MAGIC_OFFSET", _PT, r"let\s+magic\s*=\s*&slice\[(\d+)\.\.\]\s*;", "int"),
         ("FOOTER_LEN_BYTES", _PT, r"let\s+metadata_len\s*=\s*u32::from_le_bytes\(slice\[\.\.(\d+)\]\.try_into\(\)\.unwrap\(\)\)\s*;", "int"),
-        # parse_metadata: `if footer_metadata_len as u64 > file_size { return Err(NeedMoreData…` (marker: 1 = check present)
-        ("FOOTER_LEN_CHECK_PRESENT", _PR,
-         r"let\s+footer_metadata_len\s*=\s*FOOTER_SIZE\s*\+\s*metadata_len\s*;.{0,200}?if\s+footer_metadata_len\s+as\s+u64\s*>\s*file_size\s*\{\s*return\s+Err\(ParquetError::NeedMoreData\(footer_metadata_len\)\)\s*;\s*\}(\s)", "intmark"),
-        ("FOOTER_SIZE_CHECK_PRESENT", _PR,
-         r"fn\s+parse_metadata.{0,300}?if\s+file_size\s*<\s*\(FOOTER_SIZE\s+as\s+u64\)\s*\{\s*return\s+Err\(ParquetError::NeedMoreData\(FOOTER_SIZE\)\)\s*;\s*\}(\s)", "intmark"),
+        # parse_metadata: the two size checks around the footer-tail read, in order
+        # (captures the `0_u8` of the buffer initialiser; what matters is `_lost = false`)
+        ("PARSE_METADATA_CHECKS", _PR,
+         r"fn\s+parse_metadata.{0,400}?if\s+file_size\s*<\s*\(FOOTER_SIZE\s+as\s+u64\)\s*\{\s*return\s+Err\(ParquetError::NeedMoreData\(FOOTER_SIZE\)\)\s*;\s*\}"
+         r"\s*let\s+mut\s+footer\s*=\s*\[(0_u8);\s*FOOTER_SIZE\]\s*;.{0,400}?let\s+footer_metadata_len\s*=\s*FOOTER_SIZE\s*\+\s*metadata_len\s*;"
+         r".{0,200}?if\s+footer_metadata_len\s+as\s+u64\s*>\s*file_size\s*\{\s*return\s+Err\(ParquetError::NeedMoreData\(footer_metadata_len\)\)\s*;\s*\}", "int"),
         # ---- IPC
         ("CONTINUATION_BYTE", _IL,
          r"const\s+CONTINUATION_MARKER\s*:\s*\[u8;\s*4\]\s*=\s*\[\s*(0x[0-9a-fA-F]+|\d+)\s*;\s*4\s*\]\s*;", "int"),
